@@ -44,9 +44,9 @@ use std::collections::HashMap;
 
 /// Type of closure that evaluates a decision.
 ///
-/// `Fn(input data, model evaluator, output data)`
+/// `Fn(input data, values of input decisions of the enclosing decision service, model evaluator, output data)`
 ///
-type DecisionEvaluatorFn = Box<dyn Fn(&FeelContext, &ModelEvaluator, &mut FeelContext) -> Name + Send + Sync>;
+type DecisionEvaluatorFn = Box<dyn Fn(&FeelContext, &FeelContext, &ModelEvaluator, &mut FeelContext) -> Name + Send + Sync>;
 
 ///
 type DecisionEvaluatorEntry = (Variable, DecisionEvaluatorFn);
@@ -70,11 +70,20 @@ impl DecisionEvaluator {
     Ok(())
   }
   /// Evaluates a decision with specified identifier.
-  pub fn evaluate(&self, decision_id: &str, input_data: &FeelContext, model_evaluator: &ModelEvaluator, evaluated_ctx: &mut FeelContext) -> Option<Name> {
+  /// The values in `input_decisions` (the input decisions of the enclosing decision service,
+  /// empty when there is none) replace the values of the same required decisions.
+  pub fn evaluate(
+    &self,
+    decision_id: &str,
+    input_data: &FeelContext,
+    input_decisions: &FeelContext,
+    model_evaluator: &ModelEvaluator,
+    evaluated_ctx: &mut FeelContext,
+  ) -> Option<Name> {
     self
       .evaluators
       .get(decision_id)
-      .map(|evaluator_entry| evaluator_entry.1(input_data, model_evaluator, evaluated_ctx))
+      .map(|evaluator_entry| evaluator_entry.1(input_data, input_decisions, model_evaluator, evaluated_ctx))
   }
   /// Returns the name and type of the output variable of a decision with specified identifier.
   pub fn get_output_variable(&self, decision_id: &str) -> Option<&Variable> {
@@ -150,7 +159,7 @@ fn build_decision_evaluator(definitions: &Definitions, decision: &Decision, mode
   }
   // build decision evaluator closure
   let decision_evaluator = Box::new(
-    move |input_data_ctx: &FeelContext, model_evaluator: &ModelEvaluator, output_data_ctx: &mut FeelContext| {
+    move |input_data_ctx: &FeelContext, input_decisions_ctx: &FeelContext, model_evaluator: &ModelEvaluator, output_data_ctx: &mut FeelContext| {
       // acquire all evaluators needed
       if let Ok(business_knowledge_model_evaluator) = model_evaluator.business_knowledge_model_evaluator() {
         if let Ok(decision_service_evaluator) = model_evaluator.decision_service_evaluator() {
@@ -174,10 +183,16 @@ fn build_decision_evaluator(definitions: &Definitions, decision: &Decision, mode
                 });
                 // evaluate required decisions as values from decisions
                 required_decision_references.iter().for_each(|decision_identifier| {
-                  decision_evaluator.evaluate(decision_identifier, input_data_ctx, model_evaluator, &mut required_knowledge_ctx);
+                  decision_evaluator.evaluate(
+                    decision_identifier,
+                    input_data_ctx,
+                    input_decisions_ctx,
+                    model_evaluator,
+                    &mut required_knowledge_ctx,
+                  );
                 });
-                // values from required knowledge may be overridden by input data
-                required_knowledge_ctx.overwrite(input_data_ctx);
+                // values from required decisions are overridden by the input decisions of the enclosing decision service
+                required_knowledge_ctx.overwrite(input_decisions_ctx);
                 // prepare context containing values from required input data
                 let mut required_input_ctx: FeelContext = Default::default();
                 let input_data = Value::Context(input_data_ctx.clone());
